@@ -1140,8 +1140,52 @@ def binop(I, op, a, b):
     return _arith(I, op, a, b)
 
 
+def _concrete_py(I, v, depth=0):
+    """the python value of a fully concrete model value (numbers, strings, None, inf, containers of those), else UNDEF"""
+    if isinstance(v, (str, int, float, bool, type(None))):
+        return v
+    if isinstance(v, SV):
+        t = z3.simplify(v.t)
+        if z3.is_int_value(t):
+            return t.as_long()
+        if t.eq(INF):
+            return float('inf')
+        if t.eq(z3.simplify(-INF)):
+            return float('-inf')
+        return UNDEF
+    if depth > 4:
+        return UNDEF
+    if isinstance(v, tuple):
+        items = [_concrete_py(I, x, depth + 1) for x in v]
+        return UNDEF if any(x is UNDEF for x in items) else tuple(items)
+    if isinstance(v, Ref) and v.kind in ('clist', 'set') and v.cls is None and not v.nd:
+        items = [_concrete_py(I, x, depth + 1) for x in I.st.heap[v]]
+        if any(x is UNDEF for x in items):
+            return UNDEF
+        try:
+            return items if v.kind == 'clist' else set(items)
+        except TypeError:
+            return UNDEF
+    if isinstance(v, Ref) and v.kind == 'dict':
+        out = {}
+        for k_, x in I.st.heap[v].items():
+            kk, xx = _concrete_py(I, k_, depth + 1), _concrete_py(I, x, depth + 1)
+            if kk is UNDEF or xx is UNDEF:
+                return UNDEF
+            out[kk] = xx
+        return out
+    return UNDEF
+
+
 def str_format(I, a, b):
     args = b if isinstance(b, tuple) else (b,)
+    if isinstance(a, str) and any(isinstance(x, (Ref, tuple)) for x in args):
+        conc = [_concrete_py(I, x) for x in args]
+        if all(x is not UNDEF for x in conc):
+            try:
+                return a % (tuple(conc) if isinstance(b, tuple) else (conc[0],))      # CPython's own str()/repr() of the value
+            except (TypeError, ValueError):
+                raise PyExc('TypeError', 'format')
     if isinstance(a, str) and all(isinstance(x, (str, int, float, bool, type(None))) for x in args):
         try:
             return a % b
